@@ -348,6 +348,91 @@ impl Visitor for CountingVisitor {
     }
 }
 
+/// The same counting visitor with the hooks of the product nodes (whose default bodies are empty) filled in by hand, the way a
+/// user of the trait has to: through them the walk reaches the patterns, clause parts, parameters and keyword values, and the
+/// generated visit methods *below* those (pattern kinds, mapping keys, class-pattern arguments ...) become observable.
+#[derive(Default)]
+struct DeepVisitor {
+    seen: Vec<(char, String, u32, u32)>,
+}
+impl DeepVisitor {
+    fn arg_with_default(&mut self, a: ast::ArgWithDefault) {
+        self.visit_arg(a.def);
+        if let Some(d) = a.default {
+            self.visit_expr(*d);
+        }
+    }
+}
+impl Visitor for DeepVisitor {
+    fn visit_stmt(&mut self, node: ast::Stmt) {
+        let r = node.range();
+        self.seen.push(('s', kind_of(&node), r.start().into(), r.end().into()));
+        self.generic_visit_stmt(node)
+    }
+    fn visit_expr(&mut self, node: ast::Expr) {
+        let r = node.range();
+        self.seen.push(('e', kind_of(&node), r.start().into(), r.end().into()));
+        self.generic_visit_expr(node)
+    }
+    fn visit_pattern(&mut self, node: ast::Pattern) {
+        let r = node.range();
+        self.seen.push(('p', kind_of(&node), r.start().into(), r.end().into()));
+        self.generic_visit_pattern(node)
+    }
+    fn visit_excepthandler(&mut self, node: ast::ExceptHandler) {
+        let r = node.range();
+        self.seen.push(('h', kind_of(&node), r.start().into(), r.end().into()));
+        self.generic_visit_excepthandler(node)
+    }
+    fn visit_match_case(&mut self, node: ast::MatchCase) {
+        self.visit_pattern(node.pattern);
+        if let Some(g) = node.guard {
+            self.visit_expr(*g);
+        }
+        for s in node.body {
+            self.visit_stmt(s);
+        }
+    }
+    fn visit_comprehension(&mut self, node: ast::Comprehension) {
+        self.visit_expr(node.target);
+        self.visit_expr(node.iter);
+        for e in node.ifs {
+            self.visit_expr(e);
+        }
+    }
+    fn visit_arguments(&mut self, node: ast::Arguments) {
+        for a in node.posonlyargs {
+            self.arg_with_default(a);
+        }
+        for a in node.args {
+            self.arg_with_default(a);
+        }
+        if let Some(a) = node.vararg {
+            self.visit_arg(*a);
+        }
+        for a in node.kwonlyargs {
+            self.arg_with_default(a);
+        }
+        if let Some(a) = node.kwarg {
+            self.visit_arg(*a);
+        }
+    }
+    fn visit_arg(&mut self, node: ast::Arg) {
+        if let Some(a) = node.annotation {
+            self.visit_expr(*a);
+        }
+    }
+    fn visit_keyword(&mut self, node: ast::Keyword) {
+        self.visit_expr(node.value);
+    }
+    fn visit_withitem(&mut self, node: ast::WithItem) {
+        self.visit_expr(node.context_expr);
+        if let Some(v) = node.optional_vars {
+            self.visit_expr(*v);
+        }
+    }
+}
+
 /// `foldvisit <mode>` — identity fold with counting callback, counting
 /// Visitor, ConstantOptimizer once and twice.
 pub fn op_foldvisit(args: &[&str], payload: &[u8]) -> String {
@@ -436,6 +521,35 @@ pub fn op_foldvisit(args: &[&str], payload: &[u8]) -> String {
             out.push_str(&format!(",\"visited\":[{}]", rs.join(",")));
         }
         Err(p) => out.push_str(&format!(",\"visit_panic\":{}", p)),
+    }
+    let m4 = m.clone();
+    let r = guard(move || {
+        let mut v = DeepVisitor::default();
+        match m4 {
+            ast::Mod::Module(x) => {
+                for s in x.body {
+                    v.visit_stmt(s)
+                }
+            }
+            ast::Mod::Interactive(x) => {
+                for s in x.body {
+                    v.visit_stmt(s)
+                }
+            }
+            ast::Mod::Expression(x) => v.visit_expr(*x.body),
+            ast::Mod::FunctionType(_) => {}
+        }
+        v.seen
+    });
+    match r {
+        Ok(seen) => {
+            let rs: Vec<String> = seen
+                .iter()
+                .map(|(c, k, a, b)| format!("[\"{}\",{},{},{}]", c, jstr(k), a, b))
+                .collect();
+            out.push_str(&format!(",\"visited_deep\":[{}]", rs.join(",")));
+        }
+        Err(p) => out.push_str(&format!(",\"visit_deep_panic\":{}", p)),
     }
     // optimizer
     let m3 = m;
